@@ -40,7 +40,7 @@ var plainFuncNames = []string{"ping", "get", "put", "add", "list_items", "fetchA
 var collidingFuncNames = []string{"type", "func", "range", "select", "go", "map", "chan", "defer", "interface", "package",
 	"NewThing", "New", "getArgs", "fooResult", "Args", "Result", "Client", "Processor", "Process", "process",
 	"string", "error", "Read", "Write", "String", "Error", "InitDefault", "handler", "success", "GetSuccess",
-	"p", "err", "ctx", "r", "_result", "AddToProcessorMap", "ProcessorMap", "len", "nil", "true", "int32"}
+	"p", "err", "ctx", "r", "AddToProcessorMap", "ProcessorMap", "len", "nil", "true", "int32"}
 
 var plainArgNames = []string{"a", "b", "key", "value", "req", "item", "n", "who", "what", "flag", "payload", "idx"}
 
